@@ -486,6 +486,9 @@ type eRun struct {
 	barrierM    int
 	joined      bool
 	released    int64
+	mayFlush    bool   // plain / online / too-old sessions: a stalled login may be flushed (see loop)
+	flushed     bool   // ... and was: everything the client wrote before has been handled
+	flushAt     int64
 	ended       string // why the session ended early (inconclusive), "" = reached its end
 	successSeen bool
 }
